@@ -629,4 +629,50 @@ example : (normPure (-99.9 : ℚ) [1.1, 1, 1, 1, 1, 1, 1, 1, 1, 1, 1, 1] true 0 
     (normPure (-99.9 : ℚ) [1.1, 1, 1, 1, 1, 1, 1, 1, 1, 1, 1, 1] true 0 ⟨2, 5, -99.9, 12, 8, 3⟩ none).radi = 6 := by
   constructor <;> norm_num [normPure, transformPure, fillPure, fillZero, regenT, parT, corrMonth, corrDoy]
 
+/-! ### layout 0: the optional columns as the model's day arrays see them (has-column flags of the run's weather store) -/
+
+/-- **An optional value that drives a day is the value of that date's record or zero** (layout 0): the gated run differs
+from `runPerYearN` (for which `C04_weather_of_day_normalised` says whose record a day sees) only in `verd` / `sund`, and there
+only by replacing the value by 0 — never by the value of another day. The flags are those of the files read so far
+(`seenOptional`): once a file had a value the column is copied in every later year (also a year whose file has none). -/
+theorem C04_optional_columns_of_the_date_or_zero (nv : ℚ) (corr : List ℚ) (files : Nat → Option (List (Nat × Day ℚ)))
+    (anjahr beginn itag ndays : Nat) (ds : List (DayOut (Day ℚ))) (h : runPerYearL nv corr files anjahr beginn itag ndays = some ds) :
+    ∃ ds0, runPerYearN nv corr files anjahr beginn itag ndays = some ds0 ∧ ds.length = ds0.length ∧
+      ∀ i (hi : i < ds.length) (hi0 : i < ds0.length), (ds[i]).zeit = (ds0[i]).zeit ∧ (ds[i]).tagNum = (ds0[i]).tagNum ∧ (ds[i]).j = (ds0[i]).j ∧
+        ∀ v, (ds[i]).val = some v → ∃ v0, (ds0[i]).val = some v0 ∧ v.tmp = v0.tmp ∧ v.radi = v0.radi ∧ v.reg = v0.reg ∧ v.win = v0.win ∧
+          (v.verd = v0.verd ∨ v.verd = 0) ∧ (v.sund = v0.sund ∨ v.sund = 0) := by
+  unfold runPerYearL at h
+  cases h0 : runPerYearN nv corr files anjahr beginn itag ndays with
+  | none => rw [h0] at h; simp at h
+  | some ds0 =>
+    rw [h0] at h
+    simp only [Option.map_some, Option.some.injEq] at h
+    subst h
+    refine ⟨ds0, rfl, by simp, ?_⟩
+    intro i hi hi0
+    simp only [List.getElem_map]
+    refine ⟨trivial, trivial, trivial, ?_⟩
+    intro v hv
+    cases hv0 : (ds0[i]).val with
+    | none => rw [hv0] at hv; simp at hv
+    | some v0 =>
+      rw [hv0] at hv
+      simp only [Option.map_some, Option.some.injEq] at hv
+      subst hv
+      refine ⟨v0, rfl, rfl, rfl, rfl, rfl, ?_, ?_⟩
+      · unfold loadOptional; dsimp only; split <;> simp
+      · unfold loadOptional; dsimp only; split <;> simp
+
+/-- a flag, once up, stays up: a later year without a value of the column is still copied -/
+theorem C04_optional_flag_sticky (nv : ℚ) (files : Nat → Option (List (Nat × Day ℚ))) (anjahr y : Nat) (hy : anjahr ≤ y) :
+    ((seenOptional nv files anjahr y).1 = true → (seenOptional nv files anjahr (y + 1)).1 = true) ∧
+    ((seenOptional nv files anjahr y).2 = true → (seenOptional nv files anjahr (y + 1)).2 = true) := by
+  unfold seenOptional
+  have hr : y + 1 + 1 - anjahr = (y + 1 - anjahr) + 1 := by omega
+  rw [hr, List.range_succ, List.map_append, List.foldl_append]
+  simp only [List.map_cons, List.map_nil, List.foldl_cons, List.foldl_nil]
+  split
+  · exact ⟨id, id⟩
+  · exact ⟨fun h => by simp [h], fun h => by simp [h]⟩
+
 end Hermes.Weather
